@@ -556,7 +556,9 @@ def op_io_listapi(w, a, b, c, d):
     elif k == 4:
         io.sort(key=lambda x: x.name or "")
     elif k == 5:
-        cp = io.copy()  # a detached copy: editing it never touches the graph
+        import copy as _copy
+
+        cp = io.copy() if c % 2 else _copy.copy(io)  # a detached copy: editing it never touches the graph
         if v is not None:
             cp.append(v)
         if cp:
@@ -589,7 +591,9 @@ def op_init_dictapi(w, a, b, c, d):
         merged = inits | {(v.name or "k"): v}  # a new mapping: the graph's own initializers are not changed
         return len(merged)
     elif k == 2:
-        cp = inits.copy()  # a detached copy
+        import copy as _copy
+
+        cp = inits.copy() if c % 2 else _copy.copy(inits)  # a detached copy
         for key in list(cp)[: 1 + c % 2]:
             del cp[key]
         if v is not None and v.name:
@@ -600,10 +604,19 @@ def op_init_dictapi(w, a, b, c, d):
             return None
         inits.popitem()
     elif k == 4:
+        # the same value under two different keys; preferably one without a name (None or "") that the mapping would accept
+        u = pick_where(w.values, c, lambda x: not x.name and x.producer() is None and (x.graph is None or x.graph is g), fallback=False)
+        if u is not None and (c >> 9) % 3:
+            v = u
         if v is None:
             return None
-        # the same (possibly unnamed) value under two different keys
-        inits.update({(v.name or "p"): v, "q_" + (v.name or "p"): v})
+        first = pick_where(w.values, c >> 4, lambda x: bool(x.name) and x.producer() is None and (x.graph is None or x.graph is g) and x is not v, fallback=False)
+        items = {}
+        if first is not None and (c >> 7) % 2:
+            items[first.name] = first  # an acceptable item ahead of the rejected one
+        items[(v.name or "p")] = v
+        items["q_" + (v.name or "p")] = v
+        inits.update(items)
     else:
         return (len(inits), sorted(map(str, inits.keys())), [x.name for x in inits.values()])
 
